@@ -170,6 +170,12 @@ def skeleton(eng, name, P):
         b2 = [('BF', TS, bf_opts(eng, '0', ['ok', 'raise_after'], catch=P.get('catch', True)), [])]
         tail = [q_hole(eng, '0', kinds, [P1, TS])]
         return [b1 + tail, b2 + tail] if first == 0 else [b2 + tail, b1 + tail]
+    if name == 'A8d':
+        # the second build first rebuilds another output (different function), then turns a directory of outputs into a file
+        b1 = [('BF', T1, {'mode': 'ok', 'name': 'f-old'}, []), ('BF', T2, {'mode': 'ok'}, []), ('BF', 'o/d/h', {'mode': 'ok'}, [])]
+        b2 = [('BF', T1, {'mode': 'ok', 'name': 'f-new'}, []), ('BF', TS, bf_opts(eng, '0', ['ok', 'raise_after'], catch=P.get('catch')), []),
+              q_hole(eng, '0', kinds, [P1, TS])]
+        return [b1, b2]
     if name == 'A8c':
         # as A8b (one direction), but the second build asks about the tree before it swaps the directory for a file
         b1 = [('BF', 'o/d/e/h', {'mode': 'ok'}, []), ('BF', T2, {'mode': 'ok'}, [])]
@@ -216,6 +222,9 @@ def skeleton(eng, name, P):
         def gen(depth):
             tag = 'n%d' % depth
             body = [gen(depth - 1)] if depth > 1 else []
+            if depth == 1 and P.get('leaf_output'):
+                # the innermost function builds a file of its own (so that a subbuild there has something to create)
+                body = [('BF', P['leaf_output'], {'mode': 'ok'}, [])]
             if depth > 1 and P.get('inner_q'):
                 body.append(q_hole(eng, tag, P['inner_q'], P.get('inner_roles', ['o/d', 'o/m'])))
             if eng.choose('sb' + tag, 2):
